@@ -122,7 +122,7 @@ fn check_trace(which: &str, c: &Case, edges: &[(usize, usize)], tr: &[Ev], compl
     Ok(())
 }
 
-struct Run<'a> { fut: Option<Fut<'a>>, st: Rc<RunSt>, waker: Waker, cnt: std::sync::Arc<WakeCount>, seen: usize, edges: Vec<(usize, usize)>, limit: Option<usize>, label: String }
+struct Run<'a> { panicked: bool, fut: Option<Fut<'a>>, st: Rc<RunSt>, waker: Waker, cnt: std::sync::Arc<WakeCount>, seen: usize, edges: Vec<(usize, usize)>, limit: Option<usize>, label: String }
 
 /// polls the run until it is done or quiescent (Pending with no wake-up since the poll began); true when done
 fn settle(r: &mut Run<'_>) -> bool {
@@ -130,9 +130,12 @@ fn settle(r: &mut Run<'_>) -> bool {
         let Some(f) = r.fut.as_mut() else { return true };
         r.seen = wakes(&r.cnt);
         let mut cx = ctx(&r.waker);
-        match f.as_mut().poll(&mut cx) {
-            Poll::Ready(()) => { r.fut = None; return true; }
-            Poll::Pending => if wakes(&r.cnt) == r.seen { return false; },
+        // a panic inside the run (e.g. a counter underflow) ends it: what happened before is still judged by the caller
+        let polled = std::panic::catch_unwind(std::panic::AssertUnwindSafe(|| f.as_mut().poll(&mut cx)));
+        match polled {
+            Ok(Poll::Ready(())) => { r.fut = None; return true; }
+            Ok(Poll::Pending) => if wakes(&r.cnt) == r.seen { return false; },
+            Err(_) => { r.fut = None; r.panicked = true; return true; }
         }
     }
 }
@@ -175,7 +178,8 @@ fn drive(which: &str, c: &Case, runs: &mut [Run<'_>], rng: &mut Lcg, stop_after:
         if all_done { break; }
         for r in runs.iter() {
             if r.fut.is_some() {
-                check_trace(which, c, &r.edges, &r.st.trace.borrow(), false, &r.label)?;
+                // large graphs: the partial trace is only judged at the end (the quiescent-point oracles still run)
+                if c.n <= 50 { check_trace(which, c, &r.edges, &r.st.trace.borrow(), false, &r.label)?; }
                 check_quiescent(which, c, r)?;
             }
         }
@@ -195,7 +199,11 @@ fn drive(which: &str, c: &Case, runs: &mut [Run<'_>], rng: &mut Lcg, stop_after:
         }
         if releases > 10_000 { return Err(format!("C04: no end after 10000 completions ({})", c.desc)); }
     }
-    for r in runs.iter() { check_trace(which, c, &r.edges, &r.st.trace.borrow(), true, &r.label)?; }
+    for r in runs.iter() {
+        // a run that panicked is judged on the trace up to the panic (not as a clean run); the panic itself is a C04 matter
+        check_trace(which, c, &r.edges, &r.st.trace.borrow(), !r.panicked, &r.label)?;
+        if r.panicked && (which == "C04" || which == "all") { return Err(format!("C04: panic inside the run ({}; {}) trace={:?}", r.label, c.desc, r.st.trace.borrow())); }
+    }
     Ok(())
 }
 
@@ -210,13 +218,13 @@ fn new_run_mut<'a>(g: &'a mut FnGraph<Acc>, reverse: bool, tag: &str) -> Run<'a>
         let s3 = s2.clone();
         g.for_each_concurrent_mut_with(None, opts, move |f: &mut Acc| { let (s, id) = (s3.clone(), f.id); let gate = s.start(id); async move { gate.await; s.trace.borrow_mut().push(Ev::End(id)); } }).await;
     });
-    Run { fut: Some(fut), st, waker, cnt, seen: 0, edges, limit: None, label: format!("{tag}for_each_concurrent_mut_with(reverse={reverse})") }
+    Run { panicked: false, fut: Some(fut), st, waker, cnt, seen: 0, edges, limit: None, label: format!("{tag}for_each_concurrent_mut_with(reverse={reverse})") }
 }
 
 fn new_run<'a>(g: &'a FnGraph<Acc>, api: Api, reverse: bool, limit: Option<usize>, tag: &str) -> Run<'a> {
     let st = Rc::new(RunSt::default());
     let (waker, cnt) = counting_waker();
-    Run { fut: Some(make_run(g, api, reverse, limit, st.clone())), st, waker, cnt, seen: 0, edges: built_edges(g, reverse), limit, label: format!("{tag}{api:?}(limit={limit:?}, reverse={reverse})") }
+    Run { panicked: false, fut: Some(make_run(g, api, reverse, limit, st.clone())), st, waker, cnt, seen: 0, edges: built_edges(g, reverse), limit, label: format!("{tag}{api:?}(limit={limit:?}, reverse={reverse})") }
 }
 
 fn run_case(which: &'static str, c: &Case, seed: u64) -> Result<(), String> {
@@ -224,10 +232,12 @@ fn run_case(which: &'static str, c: &Case, seed: u64) -> Result<(), String> {
     let apis = [Api::ForEach, Api::TryForEach, Api::Stream];
     // ---- single runs: every API x direction x limit x 2 driver seeds
     if on("C01") || on("C02") || on("C03") || on("C04") || on("C06") || on("C10") {
+        let big = c.n > 50;
         for api in apis { for reverse in [false, true] { for limit in [None, Some(0usize), Some(1), Some(2), Some(3)] {
             if api == Api::Stream && limit.is_some() { continue; }
             if limit.is_some() && limit != Some(0) && !(on("C10") || on("C04")) { continue; }
-            for ds in 0..2u64 {
+            if big && (api == Api::TryForEach || matches!(limit, Some(0) | Some(1) | Some(3))) { continue; }
+            for ds in 0..(if big { 1 } else { 2u64 }) {
                 let g = build(c);
                 let mut rng = Lcg(seed ^ (ds * 7919 + 13));
                 let mut runs = [new_run(&g, api, reverse, limit, "")];
@@ -236,7 +246,7 @@ fn run_case(which: &'static str, c: &Case, seed: u64) -> Result<(), String> {
         } } }
     }
     // ---- C20: two runs on one graph, interleaved
-    if on("C20") {
+    if on("C20") && c.n <= 50 {
         for (a1, a2) in [(Api::ForEach, Api::ForEach), (Api::ForEach, Api::Stream), (Api::TryForEach, Api::ForEach), (Api::Stream, Api::Stream)] {
             for (r1, r2) in [(false, false), (false, true), (true, true)] {
                 let g = build(c);
@@ -248,7 +258,7 @@ fn run_case(which: &'static str, c: &Case, seed: u64) -> Result<(), String> {
         }
     }
     // ---- C15: history of earlier runs, then the same run on the reused and on a fresh graph
-    if on("C15") {
+    if on("C15") && c.n <= 50 {
         for api in apis { for reverse in [false, true] {
             // (api, reverse, dropped after k completions, exclusive-borrow variant)
             for hist in [vec![(Api::ForEach, false, None, false)], vec![(Api::ForEach, true, None, false)], vec![(Api::Stream, false, Some(1usize), false)], vec![(Api::TryForEach, true, Some(0usize), false)],
@@ -298,6 +308,9 @@ fn main() {
         Case { n: 6, accs: plain(6), edges: vec![(0, 2), (0, 3), (1, 4), (1, 5)], desc: "two roots with two successors each".into() },
         Case { n: 13, accs: plain(13), edges: vec![(0, 1), (0, 2), (0, 3), (1, 4), (1, 5), (1, 6), (2, 7), (2, 8), (2, 9), (3, 10), (3, 11), (3, 12)], desc: "two-level fan-out: root, 3 children, 3 leaves each".into() },
     ];
+    // large fan-in / fan-out (effects of narrow counters and budgets only show beyond 255 direct predecessors)
+    cases.push(Case { n: 301, accs: plain(301), edges: (0..300).map(|i| (i, 300)).collect(), desc: "fan-in: 300 functions -> 1 sink".into() });
+    cases.push(Case { n: 301, accs: plain(301), edges: (1..301).map(|i| (0, i)).collect(), desc: "fan-out: 1 root -> 300 functions".into() });
     for round in 0..300 {
         let n = 1 + rng.below(6) as usize;
         let mut label: Vec<usize> = (0..n).collect();
